@@ -229,8 +229,12 @@ func shrinkRace(p *Plan) []*Plan {
 			return true
 		})
 	}
-	if rp.Tie && rp.Reps > 1 {
-		// keep the repetitions: they are what makes an arbitration-dependent failure reproducible
-	}
+	// a failure that does not need the repetitions is easier to read without
+	// them (accepted only if a single execution still fails the same way)
+	add(func(q *RacePlan) bool {
+		ok := q.Reps > 1
+		q.Reps = 0
+		return ok
+	})
 	return out
 }
